@@ -290,6 +290,58 @@ pub fn check_world(spec: &RichSpec, l: &mut Local) -> Result<(), String> {
                     return Err(format!("{}: accepted {what} in account slot {idx} ({kind:?})", ent.name));
                 }
             }
+            if matches!(kind, SlotKind::TokenProgram | SlotKind::MemoProgram | SlotKind::SystemProgram) {
+                continue;
+            }
+            let cur = ent.ix.accounts[*idx].pubkey;
+            // type confusion: an account of ANOTHER type owned by the same program (whirlpool program accounts), or a mint where a token
+            // account is expected and the reverse (token program accounts)
+            let pl = &r.w.pools[*pool];
+            let program_owned = matches!(kind, SlotKind::Whirlpool | SlotKind::TickArray | SlotKind::Position | SlotKind::Oracle | SlotKind::Config);
+            let confusions: Vec<(&str, Pubkey)> = if program_owned {
+                let base = array_start(r.w.pool_state(*pool).tick_current_index, pl.tick_spacing);
+                vec![
+                    (SlotKind::Whirlpool, "a whirlpool account", pl.key),
+                    (SlotKind::Position, "a position account", r.w.positions[r.pos_plain].position),
+                    (SlotKind::TickArray, "a tick array account", tick_array_pda(&pl.key, base)),
+                    (SlotKind::Oracle, "an initialised oracle account", r.w.pools[r.pa].oracle),
+                    (SlotKind::Config, "a config account", r.w.configs[r.cfg].key),
+                    (SlotKind::SystemProgram, "a fee tier account", pl.fee_tier),
+                ]
+                .into_iter()
+                .filter(|(k2, _, key)| k2 != kind && *key != cur && r.w.bank.accounts.get(key).map(|a| a.owner == WP && a.data.len() >= 8).unwrap_or(false))
+                .map(|(_, what, key)| (what, key))
+                .collect()
+            } else if matches!(kind, SlotKind::MintA | SlotKind::MintB | SlotKind::RewardMint) {
+                vec![("a token account where a mint is expected", if *kind == SlotKind::MintB { pl.vault_b } else { pl.vault_a })]
+            } else {
+                vec![("a mint where a token account is expected", if matches!(kind, SlotKind::VaultB | SlotKind::OwnerTokenB) { pl.mint_b.key } else { pl.mint_a.key })]
+            };
+            for (what, key) in confusions {
+                let mut ix = ent.ix.clone();
+                ix.accounts[*idx].pubkey = key;
+                let mut wc = r.w.clone();
+                l.count(&format!("type_confusion/{kind:?}"));
+                if wc.exec(&ix).ok() {
+                    return Err(format!("{}: accepted {what} in account slot {idx} ({kind:?})", ent.name));
+                }
+            }
+            // a byte-identical copy of the RIGHT account under another owner (anybody can create one: the owning program alone decides the
+            // bytes), at a fresh address
+            let orig = r.w.bank.get(&cur);
+            if !orig.data.is_empty() {
+                for (what, owner) in [("owned by a program that accepts every instruction", crate::rt::obliging_program()), ("owned by the system program", SYS)] {
+                    let mut wc = r.w.clone();
+                    let forged = Pubkey::new_unique();
+                    wc.bank.set(forged, crate::rt::Acct { owner, ..orig.clone() });
+                    let mut ix = ent.ix.clone();
+                    ix.accounts[*idx].pubkey = forged;
+                    l.count(&format!("forged_copy/{kind:?}"));
+                    if wc.exec(&ix).ok() {
+                        return Err(format!("{}: accepted a byte-identical copy of the right account {what} in account slot {idx} ({kind:?})", ent.name));
+                    }
+                }
+            }
         }
         // v2 swaps take extra ("supplemental") tick arrays after the fixed slots: an initialized tick array of ANOTHER pool given
         // there must be rejected too, wherever its address sorts among the pool's own arrays
